@@ -397,7 +397,19 @@ class Topology(ABC):
         :param name:
         :return:
         """
-        self.graph_model.remove_ns_with_cps_and_links(node_id=self._get_ns_by_name(name=name).node_id)
+        ns = self._get_ns_by_name(name=name)
+        self._remove_facing_service_ports(ns)
+        self.graph_model.remove_ns_with_cps_and_links(node_id=ns.node_id)
+
+    def _remove_facing_service_ports(self, ns: NetworkService) -> None:
+        """
+        Remove the ServicePorts (and links) through which other services peer with this one
+        """
+        # look the ports up afresh: the list cached in a service handle may be out of date
+        for i in NetworkService(name=ns.name, node_id=ns.node_id, topo=self).interface_list:
+            for p in i.get_peers(itype=InterfaceType.ServicePort) or []:
+                if i.type == InterfaceType.ServicePort:
+                    self.graph_model.remove_cp_and_links(node_id=p.node_id)
 
     def _get_node_by_name(self, name: str) -> Node:
         """
@@ -990,6 +1002,7 @@ class ExperimentTopology(Topology):
         """
         Prune this network service and its interfaces
         """
+        self._remove_facing_service_ports(ns)
         self.graph_model.remove_ns_with_cps_and_links(node_id=ns.node_id)
 
     def _prune_components(self, c: Component, parent: Node):
